@@ -88,7 +88,7 @@ def step (st : St) (l : String) : St × String :=
       else
         let ig := parseKinds ig
         let k := UInt8.ofNat k.toNat!
-        let gs := run c ig k skip
+        let gs := Accum.run c ig k skip
         (st, canon gs ++ (if schedOK c ig k skip seed.toNat! gs then "" else " MODEL-SCHED-DISAGREE"))
   | _ => (st, "bad-op")
 
